@@ -554,3 +554,7 @@ mod tests {
         wait_list0.unlink(waiter0)
     }
 }
+
+#[cfg(any(kani, rescrv_blue_verif))]
+#[path = "/verif/hk/sync42/wait_list.rs"]
+pub(crate) mod verif_harness;
